@@ -243,3 +243,20 @@ PROPS["C18"] = {
          "preempts": {"quick": 2, "thorough": 3}, "params": {"quick": {}, "thorough": {}}},
     ],
 }
+
+PROPS["C03"] = {
+    "files": ["region/fakes.go", "region/c03_failure.go"],
+    "claim": "A real region client (NewClient + Dial, batching and reader goroutines) on a connection whose k-th operation fails "
+             "(k = 1..K symbolic over Read / Write / SetReadDeadline / SetWriteDeadline, failing writes with or without a partial "
+             "write) or that is closed externally before / between / after the requests, with one unbatched call and a batch of two "
+             "queued on it and a silent server, under every interleaving within the pre-emption bound: every request is completed "
+             "exactly once, with a ServerError; no client goroutine is left; later requests are refused at once with ErrClientClosed.",
+    "outside": "more than K operations before the fault; data races between synchronisation points; responses arriving concurrently "
+               "with the failure (C02/C18 cover response handling); contexts that end before the failure",
+    "assumptions": ["pre-emption only at synchronisation points (channel ops, mutexes, sync.Once, atomics, connection calls); at most "
+                    "the stated number of pre-emptive switches per run"],
+    "jobs": [
+        {"name": "conn_failure", "pkg": "region", "entry": "VerifConnFailure", "reach": ["failed"], "no_native": False, "native_retries": 3,
+         "preempts": {"quick": 1, "thorough": 2}, "params": {"quick": {"K": 8, "protoMax": 1, "protoFixed": 1}, "thorough": {"K": 12, "protoMax": 1, "protoFixed": 1}}},
+    ],
+}
